@@ -95,7 +95,20 @@ func (b *zzBN) AttesterDuties(ctx context.Context, epoch phase0.Epoch, idx []pha
 	return []*eth2apiv1.AttesterDuty{{Slot: s, ValidatorIndex: 7}}, nil
 }
 func (b *zzBN) ProposerDuties(ctx context.Context, epoch phase0.Epoch, idx []phase0.ValidatorIndex) ([]*eth2apiv1.ProposerDuty, error) {
-	return nil, nil
+	if !zzNondetBool("fetch_ok") {
+		zzOrd++
+		b.fetches = append(b.fetches, zzFetch{epoch: epoch, seq: zzSeq, ord: zzOrd})
+		return nil, errors.New("zz: beacon node down")
+	}
+	base := uint64(0)
+	if uint64(epoch) == uint64(zzCurSlot)/zzSPE {
+		base = uint64(zzCurSlot) % zzSPE
+	}
+	off := (base + zzConcretizeU64(zzNondetRange("duty_off", 0, 2))) % zzSPE
+	s := phase0.Slot(uint64(epoch)*zzSPE + off)
+	zzOrd++
+	b.fetches = append(b.fetches, zzFetch{epoch: epoch, slot: s, ok: true, seq: zzSeq, ord: zzOrd})
+	return []*eth2apiv1.ProposerDuty{{Slot: s, ValidatorIndex: 7}}, nil
 }
 func (b *zzBN) SyncCommitteeDuties(ctx context.Context, epoch phase0.Epoch, idx []phase0.ValidatorIndex) ([]*eth2apiv1.SyncCommitteeDuty, error) {
 	return nil, nil
@@ -217,6 +230,94 @@ func ZZHarnessAttester() {
 			}
 		}
 		// the dispatched duty is in the most recently fetched assignment of its epoch (fetched before the dispatch)
+		var lf *zzFetch
+		for f := range bn.fetches {
+			if bn.fetches[f].epoch == phase0.Epoch(execs[i].slot/zzSPE) && bn.fetches[f].ok && bn.fetches[f].ord < execs[i].ord {
+				lf = &bn.fetches[f]
+			}
+		}
+		zzAssert(lf != nil, "dispatched-duty-was-fetched")
+		if lf != nil {
+			zzAssert(lf.slot == execs[i].slot, "dispatched-duty-is-in-the-most-recently-fetched-assignment")
+		}
+	}
+	zzReach("end")
+	if len(execs) > 0 {
+		zzReach("some-dispatch")
+	}
+}
+
+
+// ZZHarnessProposer: the same event script on the real ProposerHandler.HandleDuties loop.
+func ZZHarnessProposer() {
+	k := int(zzParam("K"))
+	starts := []phase0.Slot{zzSPE + 1, zzSPE + 4, zzSPE + 6, zzSPE + 7}
+	start := starts[zzChoose("start_slot", len(starts))]
+	zzCurSlot = start
+	bc := &zzBeacon{slot: start}
+	tk := &zzTicker{ch: make(chan time.Time), slot: start}
+	bn := &zzBN{}
+	var execs []zzExec
+	h := NewProposerHandler(dutystore.NewDuties[eth2apiv1.ProposerDuty]())
+	reorg := make(chan ReorgEvent)
+	idxc := make(chan struct{})
+	h.Setup("PROP", zap.NewNop(), bn, nil, networkconfig.NetworkConfig{Beacon: bc}, zzVC{},
+		func(l *zap.Logger, ds []*spectypes.Duty) {
+			zzOrd++
+			for _, d := range ds {
+				execs = append(execs, zzExec{slot: d.Slot, tick: tk.slot, role: d.Type, seq: zzSeq, ord: zzOrd})
+			}
+		},
+		func() slotticker.SlotTicker { return tk }, reorg, idxc)
+	go h.HandleDuties(context.Background())
+	lastInvalidation := -1
+	ticked := false
+	for i := 0; i < k; i++ {
+		zzSeq++
+		ev := 0
+		if ticked {
+			ev = zzChoose("event", 4)
+		}
+		switch ev {
+		case 0:
+			nexec := len(execs)
+			tk.ch <- time.Time{}
+			zzYield()
+			ticked = true
+			slot := tk.slot
+			epoch := phase0.Epoch(slot / zzSPE)
+			lf := zzLatestFetch(bn.fetches, epoch)
+			if lf != nil && lf.ok && lf.slot == slot && lf.seq < zzSeq && lastInvalidation < lf.seq {
+				zzReach("due")
+				zzAssert(len(execs) == nexec+1, "fetched-duty-dispatched-exactly-once-at-its-tick")
+			}
+			tk.slot++
+			bc.slot = tk.slot
+			zzCurSlot = tk.slot
+		case 1:
+			reorg <- ReorgEvent{Slot: tk.slot, Previous: true}
+			zzYield()
+			lastInvalidation = zzSeq
+		case 2:
+			reorg <- ReorgEvent{Slot: tk.slot, Current: true}
+			zzYield()
+			lastInvalidation = zzSeq
+			zzReach("reorg-current")
+		case 3:
+			idxc <- struct{}{}
+			zzYield()
+			lastInvalidation = zzSeq
+			zzReach("indices-change")
+		}
+	}
+	for i := range execs {
+		zzAssert(execs[i].slot == execs[i].tick, "dispatched-only-at-the-tick-of-its-slot")
+		zzAssert(execs[i].role == spectypes.BNRoleProposer, "proposer-role")
+		for j := range execs {
+			if i != j {
+				zzAssert(execs[i].slot != execs[j].slot, "at-most-one-dispatch-per-slot")
+			}
+		}
 		var lf *zzFetch
 		for f := range bn.fetches {
 			if bn.fetches[f].epoch == phase0.Epoch(execs[i].slot/zzSPE) && bn.fetches[f].ok && bn.fetches[f].ord < execs[i].ord {
